@@ -1,6 +1,7 @@
 """C09 - charge curves and isoelectric points follow Henderson-Hasselbalch."""
 import itertools
 import math
+import os
 
 from ..core import Acc, Viol, jhash
 from .. import pk, gen, profiles as pf
@@ -27,7 +28,14 @@ REAL_INPUTS = [('file', '3SGB'), ('file', '1HPX'), ('file', '4DFR'), ('file', '1
                # groups whose model pKa comes from the per-residue custom table (pseudo-nucleotides, see C01)
                ('dna', 'DA', 'N1'), ('dna', 'DG', 'N7'), ('dna', 'DT', 'N3'), ('dna', 'DC', 'N3'),
                # groups that print the same label: two copies of a ligand in one chain, residues differing in insertion code only
-               ('twocopies', 'ACT', 'LYS'), ('twocopies', 'MAM', 'GLU'), ('twins', 'GLU', 'GLU'), ('twins', 'LYS', 'LYS')]
+               ('twocopies', 'ACT', 'LYS'), ('twocopies', 'MAM', 'GLU'), ('twins', 'GLU', 'GLU'), ('twins', 'LYS', 'LYS'),
+               # several conformations with different charge curves (every conformation and the average are judged, each with the
+               # file the program writes for it); a chain that one model lacks; all hydrogens supplied and kept
+               ('c08', dict(kind='alt', layout=[('A', 'ASP'), ('B', 'ASPs')])), ('c08', dict(kind='alt', layout=[('A', 'ASP'), ('B', 'ALA')])),
+               ('c08', dict(kind='alt', layout=[('A', 'ALA'), ('B', 'ASP'), ('C', 'ASPs')], lys=[('B', 'LYSs'), ('C', 'LYS')])),
+               ('c08', dict(kind='model', layout=[(1, 'ASP'), (2, 'ASPnoCG'), (3, 'absent')])),
+               ('c08', dict(kind='bridge', how='alt', layout=[('A', 'bonded'), ('B', 'free')])),
+               ('kmodels', 'first-lacks-B'), ('kmodels', 'second-lacks-B'), ('kmodels', 'both')]
 
 
 def sigs(tier):
@@ -81,14 +89,25 @@ def plan(tier, seed):
                 samples=[dict(sig='AB', pkas=[3.8, 10.5], grid=[0, 14, 1])])
 
 
-def oracle(mol, case, acc, text=None, lattice=True):
-    """All C09 oracles on the current state of mol's AVR conformation."""
+def conf_text(mol, cname):
+    """The .pka text the program writes for one conformation (propka.output.write_pka with its conformation argument)."""
+    import propka.output
+    path = os.path.abspath('conf_%s.pka' % cname)
+    propka.output.write_pka(mol, mol.version.parameters, filename=path, conformation=cname, verbose=False)
+    with open(path) as fh:
+        text = fh.read()
+    os.unlink(path)
+    return text
+
+
+def oracle(mol, case, acc, text=None, lattice=True, cname='AVR'):
+    """All C09 oracles on the current state of one conformation of mol (the reported average by default)."""
     v = []
-    conf = mol.conformations['AVR']
-    tri = pf.triples(mol)
+    conf = mol.conformations[cname]
+    tri = pf.triples(mol, cname)
     params = mol.version.parameters
     # per-group curve
-    for g in pf.titratable(mol):
+    for g in pf.titratable(mol, cname):
         c = g.charge
         for state, pk_ in (('folded', g.pka_value), ('unfolded', g.model_pka)):
             prev = None
@@ -108,7 +127,7 @@ def oracle(mol, case, acc, text=None, lattice=True):
                 v.append(('group-half-charge', '%s q(pKa)=%r charge %r' % (g.label, q, c)))
     # profiles
     for grid in (GRIDS if lattice else GRIDS[:2]):
-        prof = mol.get_charge_profile(conformation='AVR', grid=grid)
+        prof = mol.get_charge_profile(conformation=cname, grid=grid)
         for row in prof:
             ph, qu, qf = row
             ru, rf = pf.ref_totals(tri, ph)
@@ -136,7 +155,7 @@ def oracle(mol, case, acc, text=None, lattice=True):
                 wins.append((round(w[0], 3), round(w[1], 3)))
     for win in wins:
         for prec in PRECISIONS:
-            pif, piu = mol.get_pi(conformation='AVR', grid=win, precision=prec)
+            pif, piu = mol.get_pi(conformation=cname, grid=win, precision=prec)
             for which, pi, col in (('folded', pif, 1), ('unfolded', piu, 0)):
                 qlo, qhi = pf.ref_totals(tri, win[0])[col], pf.ref_totals(tri, win[1])[col]
                 if qlo > 1e-9 and qhi < -1e-9 and pi is None:
@@ -170,7 +189,7 @@ def oracle(mol, case, acc, text=None, lattice=True):
         if p['pi'] is None:
             v.append(('pi-line-missing', 'no pI line'))
         else:
-            pif, piu = mol.get_pi(conformation='AVR')
+            pif, piu = mol.get_pi(conformation=cname)
             if pif is None or piu is None:
                 v.append(('pi-line-differs', 'printed %s API (%r, %r)' % (p['pi'], pif, piu)))
             elif abs(p['pi'][0] - pif) > 0.00501 or abs(p['pi'][1] - piu) > 0.00501:
@@ -208,6 +227,8 @@ def run_shard(shard, ctx):
 
 
 def real_mol(inp, seed, opts=()):
+    if inp[0] == 'kmodels':
+        opts = tuple(opts) + ('--keep-protons',)
     text = real_text(inp, seed)
     return pk.run(text, opts), text
 
@@ -215,6 +236,24 @@ def real_mol(inp, seed, opts=()):
 def real_text(inp, seed):
     if inp[0] == 'file':
         return gen.library().text(inp[1])
+    if inp[0] == 'c08':
+        from . import c08
+        d = dict(inp[1])
+        d['layout'] = [tuple(x) for x in d['layout']]
+        if d.get('lys'):
+            d['lys'] = [tuple(x) for x in d['lys']]
+        return gen.to_text(c08.build(d, seed))
+    if inp[0] == 'kmodels':
+        # a two-chain peptide with the program's own hydrogens written back, as two MODELs of which one may lack chain B
+        from . import c07, c08
+        one = c08.build(dict(kind='alt', layout=[(' ', 'ASP')]), seed)
+        fed = c07.hydrogens_fed_back(one, pk.run(gen.to_text(one)))
+        only_a = [it for it in fed if isinstance(it, str) or it.chain == 'A']
+        m = {'first-lacks-B': (only_a, fed), 'second-lacks-B': (fed, only_a), 'both': (fed, fed)}[inp[1]]
+        items = []
+        for k, part in enumerate(m):
+            items += ['MODEL     %4d\n' % (k + 1)] + [i.clone() if not isinstance(i, str) else i for i in part] + ['ENDMDL\n']
+        return gen.to_text(items)
     if inp[0] == 'dna':
         from . import c01
         frag = c01.dna_fragment(inp[1], inp[2]).translate((10000, 10000, 10000))
@@ -265,6 +304,9 @@ def run_case(case, ctx, acc):
     else:
         mol, text = real_mol(case['inp'], ctx.seed)
         oracle(mol, case, acc, text=pk.pka_text(mol), lattice=False)
+        for cname in mol.conformation_names:     # every single conformation, with the file written for it
+            oracle(mol, dict(case, conformation=cname), acc, text=conf_text(mol, cname), lattice=False, cname=cname)
+            acc.n += 1
         acc.n += 1
         acc.nontrivial.add(jhash(case))
         acc.outcomes['real'] += 1
